@@ -701,7 +701,20 @@ def _do_ufunc(ufunc, method, inputs, out, kw):
     kw = {k: v for k, v in kw.items() if k not in ("casting", "order", "subok", "signature")}
     where = kw.pop("where", True)
     if where is not True:
-        raise EngineUnsupported("ufunc where=")
+        # numpy semantics: cells where the mask is false keep what `out` held before; the mask itself must be concrete
+        if method != "__call__" or not out or out[0] is None:
+            raise EngineUnsupported("ufunc where= without out=")
+        m = _sa(where)
+        if not m.is_concrete():
+            raise EngineUnsupported("ufunc where= with a symbolic mask")
+        full = _do_ufunc(ufunc, method, inputs, None, kw)
+        tgt = out[0]
+        mask = numpy.broadcast_to(unbox(m).astype(bool), tgt.shape)
+        fullb = numpy.broadcast_to(raw(full) if isinstance(full, SymArray) else numpy.asarray(full, dtype=object), tgt.shape)
+        for ix in numpy.ndindex(*tgt.shape):
+            if mask[ix]:
+                tgt[ix] = fullb[ix]
+        return tgt
     if method == "__call__":
         if ufunc is numpy.matmul:
             r = f_matmul(inputs[0], inputs[1])
